@@ -55,6 +55,8 @@ def fmt_case(c):
         lines.append("reps %d" % c["reps"])
     if c.get("freeze"):
         lines.append("freeze %d %d" % tuple(c["freeze"]))
+    if c.get("elem"):
+        lines.append("elem %s" % c["elem"])
     lines.append("end")
     return "\n".join(lines) + "\n"
 
